@@ -690,6 +690,9 @@ class Engine(object):
             if n > self.max_paths:
                 self.undecide(where, "path explosion (> %d paths)" % self.max_paths)
                 break
+            if getattr(self, "deadline", None) and time.time() > self.deadline:
+                self.undecide(where, "time budget of the unit exhausted after %d paths (undecided, not a violation)" % (n - 1))
+                break
             t_path = time.time()
             try:
                 thunk()
